@@ -67,3 +67,25 @@ Example C07_example :
       (snd ex_run)
   = [[Some 4294967294]; [Some 4294967295]; []; [Some 0]; []; []; []; []; [Some 1; Some 2]].
 Proof. split; [apply wf_evs_of_b; vm_compute; reflexivity | vm_compute; reflexivity]. Qed.
+
+(** The session counts one transfer per frame on the wire: a transfer too large
+    for one frame is cut by the session engine ([split_transfer], model
+    Frame/SessionSplit.v) before the transfers are numbered.  Nothing of the
+    payload is lost, and as soon as the frame body limit [mfb] leaves room for
+    the performative, the first piece fits with the performative that has room
+    reserved for the delivery-id and every further piece fits with the short
+    performative - so the frame encoder writes exactly one frame per numbered
+    transfer (checked against the real encoder for every generated piece). *)
+From FV Require Import Frame.SessionSplit Proofs.SessionSplitProofs.
+Theorem C07_every_frame_numbered :
+  forall mfb lf lr n, (lf <= mfb)%N -> (lr < mfb)%N ->
+    sumN (session_split mfb lf lr n) = n /\
+    match session_split mfb lf lr n with
+    | [] => False
+    | first :: rest => (lf + first <= mfb)%N /\ Forall (fun k => (lr + k <= mfb)%N) rest
+    end.
+Proof. intros mfb lf lr n Hf Hr. split; [apply split_sum|apply split_fit; assumption]. Qed.
+Print Assumptions C07_every_frame_numbered.
+
+Example C07_split_example : session_split 504 30 12 1500 = [474; 492; 492; 42]%N.
+Proof. vm_compute. reflexivity. Qed.
